@@ -126,12 +126,56 @@ Proof.
   unfold sfield_wf in H. apply andb_true_iff in H. destruct H as [_ H]. exact H.
 Qed.
 
+(* ---- tree-form inline schemas: what well-formedness gives, by nested induction ----------------------------- *)
+Lemma tfield_wf_parts : forall n k r o d, tfield_wf (TF n k r o d) = true ->
+  name_ok n = true /\ (o && r) = false
+  /\ match k with
+     | TKInline k' _ fs os =>
+         if k' =? 2 then fs = [] /\ forallb name_ok os = true
+         else (k' <? 2) = true /\ forallb tfield_wf fs = true /\ nodup_bytes (sp_tscope k' fs) = true
+              /\ tmembers_singular k' fs = true
+     | _ => True
+     end.
+Proof.
+  intros n k r o d H. cbn [tfield_wf] in H. apply andb_true_iff in H. destruct H as [H Hk].
+  apply andb_true_iff in H. destruct H as [Hn Hor]. apply negb_true_iff in Hor.
+  split; [exact Hn|]. split; [exact Hor|]. destruct k as [i|i|i|k' c fs os]; try exact I.
+  destruct (k' =? 2).
+  - apply andb_true_iff in Hk. destruct Hk as [Hf Ho]. split; [destruct fs; [reflexivity|discriminate]|exact Ho].
+  - apply andb_true_iff in Hk. destruct Hk as [Hk H4]. apply andb_true_iff in Hk. destruct Hk as [Hk H3].
+    apply andb_true_iff in Hk. destruct Hk as [H1 H2]. auto.
+Qed.
+
+Lemma tfield_wf_ok : forall t, tfield_wf t = true -> tfield_ok t = true.
+Proof.
+  fix IH 1. intros [n k r o d] H. destruct (tfield_wf_parts n k r o d H) as [_ [Hor Hk]].
+  cbn [tfield_ok]. rewrite Hor. cbn [negb andb]. destruct k as [i|i|i|k' c fs os]; try reflexivity.
+  destruct (k' =? 2).
+  - destruct Hk as [-> _]. reflexivity.
+  - destruct Hk as [_ [Hf _]]. clear H. revert fs Hf. fix IHl 1. intros [|x rest] Hf; [reflexivity|].
+    cbn [forallb] in *. apply andb_true_iff in Hf. destruct Hf as [Hx Hr]. rewrite (IH x Hx). exact (IHl rest Hr).
+Qed.
+
+Lemma tfields_wf_ok : forall fs, forallb tfield_wf fs = true -> forallb tfield_ok fs = true.
+Proof.
+  intros fs H. apply forallb_forall. intros x Hx. rewrite forallb_forall in H. now apply tfield_wf_ok, H.
+Qed.
+
+Lemma tree_wf_parts : forall k fs, tree_wf k fs = true ->
+  (k <? 2) = true /\ forallb tfield_wf fs = true /\ nodup_bytes (sp_tscope k fs) = true /\ tmembers_singular k fs = true.
+Proof.
+  intros k fs H. unfold tree_wf in H. apply andb_true_iff in H. destruct H as [H H4].
+  apply andb_true_iff in H. destruct H as [H H3]. apply andb_true_iff in H. destruct H as [H1 H2]. auto.
+Qed.
+
 Lemma fields_ok_holds : forall e, quantified e -> fields_ok e = true.
 Proof.
   intros e Q. unfold fields_ok. apply forallb_forall. intros u Hu.
   destruct (all_ufields_ok e u Q Hu) as [W _]. destruct (ufield_wf_parts u W) as [_ [Wi W3]].
   unfold ufield_ok. rewrite W3. cbn [negb andb]. unfold inline_wf in Wi.
-  destruct (uf_kind u); try reflexivity; apply andb_true_iff in Wi; destruct Wi as [Wi _]; now apply sfields_ok.
+  destruct (uf_kind u) as [pt j|m|m|m|p f t|tn j|i|i|sfs|sfs|os|tk tfs]; try reflexivity;
+    try (apply andb_true_iff in Wi; destruct Wi as [Wi _]; now apply sfields_ok).
+  destruct (tree_wf_parts tk tfs Wi) as [_ [Hf _]]. now apply tfields_wf_ok.
 Qed.
 
 (* what a schema of the block defines *)
@@ -181,19 +225,40 @@ Proof.
   intros e fl fs H. apply forallb_forall. intros x Hx. rewrite forallb_forall in H. now apply item_resolves, H.
 Qed.
 
+Lemma tfield_ref_resolves : forall e fl t, tfield_ref_ok e t = true ->
+  tfield_resolves (defined (expand_with e fl)) t = true.
+Proof.
+  intros e fl. fix IH 1. intros [n k r o d]. destruct k as [i|i|i|k c fs os]; cbn [tfield_ref_ok tfield_resolves]; intros H.
+  - now apply item_resolves.
+  - now apply item_resolves.
+  - now apply item_resolves.
+  - revert fs H. fix IHl 1. intros [|x rest] H; [reflexivity|]. cbn [forallb] in *.
+    apply andb_true_iff in H. destruct H as [Hx Hr]. rewrite (IH x Hx). exact (IHl rest Hr).
+Qed.
+
 Lemma ref_ok_resolves : forall e fl u, ref_ok e u = true ->
   resolves (defined (expand_with e fl)) (of_ufield u) = true.
 Proof.
   intros e fl [n k r o] H. unfold ref_ok in H. cbn [uf_kind] in H. unfold resolves, field_resolves, of_ufield. cbn [uf_kind].
-  destruct k as [pt j|m|m|m|p f t|tn j|i|i|sfs|sfs|os];
-    cbn [f_type f_inline ref_resolves il_fields forallb andb]; rewrite ?andb_true_r; try reflexivity.
+  destruct k as [pt j|m|m|m|p f t|tn j|i|i|sfs|sfs|os|tk tfs];
+    cbn [f_type f_inline ref_resolves il_fields forallb andb]; rewrite ?inline_type_resolves; rewrite ?andb_true_r; try reflexivity.
   - apply resolves_local. now apply names_object_defined.
   - apply resolves_local. now apply names_oneof_defined.
   - apply resolves_local. now apply names_enum_defined.
   - now apply item_resolves.
   - now apply item_resolves.
-  - now apply sfields_resolve.
-  - now apply sfields_resolve.
+  - cbn [andb]. now apply sfields_resolve.
+  - cbn [andb]. now apply sfields_resolve.
+Qed.
+
+(* the references inside the user's tree-form inline schemas resolve *)
+Lemma trees_ok_holds : forall e fl, quantified e -> trees_ok e (defined (expand_with e fl)) = true.
+Proof.
+  intros e fl Q. unfold trees_ok. apply forallb_forall. intros u Hu.
+  destruct (all_ufields_ok e u Q Hu) as [_ R]. unfold ref_ok in R. unfold tree_of, of_ufield.
+  destruct (uf_kind u) as [pt j|m|m|m|p f t|tn j|i|i|sfs|sfs|os|tk tfs]; try reflexivity.
+  cbn [f_inline il_tree]. apply forallb_forall. intros x Hx. rewrite forallb_forall in R.
+  now apply tfield_ref_resolves, R.
 Qed.
 
 Lemma closed_holds : forall e fl, quantified e -> closed (expand_with e fl) = true.
@@ -331,7 +396,7 @@ Qed.
 Theorem convert_accepts : forall e, quantified e -> exists fl, convert e = Ok (expand_with e fl).
 Proof.
   intros e Q. destruct (expand_accepts e Q) as [fl Hx]. exists fl. unfold convert. rewrite Hx.
-  rewrite (closed_holds e fl Q), (fields_ok_holds e Q), (query_params_holds e Q), (command_params_holds e Q), (q_no_list e Q).
+  rewrite (closed_holds e fl Q), (trees_ok_holds e fl Q), (fields_ok_holds e Q), (query_params_holds e Q), (command_params_holds e Q), (q_no_list e Q).
   reflexivity.
 Qed.
 
@@ -382,15 +447,26 @@ Lemma of_ufield_facts : forall u,
   f_json (of_ufield u) = uf_name u /\ f_optional (of_ufield u) = sp_presence u
   /\ is_map_field (of_ufield u) = is_map_kind u.
 Proof.
-  intros [n k r o]. unfold of_ufield, is_map_kind, is_map_field, sp_presence, is_repeated_kind. cbn [uf_kind uf_optional].
-  destruct k as [pt j|m|m|m|p f t|tn j|i|i|sfs|sfs|os]; cbn; repeat split;
-    try reflexivity; try (now rewrite andb_true_r); try (now rewrite andb_false_r); destruct i; reflexivity.
+  intros [n k r o d kf c].
+  unfold of_ufield, is_map_kind, is_map_field, sp_presence, is_repeated_kind, is_inline_kind, inline_type.
+  cbn [uf_kind uf_optional uf_name uf_container uf_desc uf_keyfmt].
+  destruct k as [pt j|m|m|m|p f t|tn j|i|i|sfs|sfs|os|tk tfs]; cbn [f_json f_optional f_type andb negb];
+    repeat split; try reflexivity; try (now rewrite andb_true_r); try (now rewrite andb_false_r);
+    try (destruct i; reflexivity);
+    try (now rewrite negb_involutive);
+    try (destruct (c =? 2); reflexivity).
 Qed.
+
+Lemma inline_of_none : forall f, f_inline f = None -> inline_of f = None.
+Proof. intros f H. unfold inline_of. now rewrite H. Qed.
+Lemma inline_of_inline_type : forall j c n k r q fl p te fi fo o il d kf,
+  inline_of (mkF13 j (inline_type c n k) r q fl p te fi fo o (Some il) d kf) = Some (n, k, il).
+Proof. intros. unfold inline_of, inline_type. cbn [f_inline f_type]. destruct (c =? 2); reflexivity. Qed.
 
 Lemma no_inline_names : forall fs, Forall (fun f => f_inline f = None) fs -> inline_names fs = [] /\ inline_scopes fs = [].
 Proof.
   induction 1 as [|f l H _ [IH1 IH2]]; [split; reflexivity|]. unfold inline_names, inline_scopes in *. cbn [flat_map].
-  rewrite H, IH1, IH2. split; reflexivity.
+  rewrite (inline_of_none f H), H, IH1, IH2. split; reflexivity.
 Qed.
 
 (* a message without nested messages and without inline types has one scope *)
@@ -458,46 +534,11 @@ Qed.
 
 Lemma user_inline_names : forall fs, inline_names (map of_ufield fs) = sp_inline_names fs.
 Proof.
-  induction fs as [|[n k r o] fs IH]; [reflexivity|]. unfold inline_names, sp_inline_names in *. cbn [map flat_map].
-  rewrite IH. f_equal. unfold of_ufield. cbn [uf_kind uf_name].
-  destruct k as [pt j|m|m|m|p f t|tn j|i|i|sfs|sfs|os]; cbn [f_inline f_type il_kind il_options N.eqb Pos.eqb]; try reflexivity.
+  induction fs as [|[n k r o d kf c] fs IH]; [reflexivity|]. unfold inline_names, sp_inline_names in *. cbn [map flat_map].
+  rewrite IH. f_equal. unfold of_ufield. cbn [uf_kind uf_name uf_container].
+  destruct k as [pt j|m|m|m|p f t|tn j|i|i|sfs|sfs|os|tk tfs]; rewrite ?inline_of_inline_type;
+    try (rewrite inline_of_none by reflexivity); cbn [il_kind il_options N.eqb Pos.eqb]; try reflexivity.
   now rewrite inline_enum_values_eq.
-Qed.
-
-(* no inline oneof of these fields has an option named type (reserved_free) *)
-Definition type_free (fs : list ufield) : Prop :=
-  forall u, In u fs -> match uf_kind u with
-                       | KInlineOneof opts => forallb (fun o => negb (bytes_eqb (to_snake (sf_name o)) (bs "type"))) opts = true
-                       | _ => True end.
-
-Lemma type_free_of : forall e fs, reserved_free e = true -> (forall u, In u fs -> In u (all_ufields e)) -> type_free fs.
-Proof.
-  intros e fs Hr Hin u Hu. destruct (reserved_free_parts e Hr) as [_ [_ [_ [_ [_ [_ R]]]]]].
-  rewrite forallb_forall in R. specialize (R u (Hin u Hu)). destruct (uf_kind u); try exact I. exact R.
-Qed.
-
-Lemma type_free_sub : forall a b, (forall u, In u a -> In u b) -> type_free b -> type_free a.
-Proof. intros a b H Hb u Hu. apply Hb. now apply H. Qed.
-
-Lemma user_inline_scopes : forall fs, forallb ufield_wf fs = true -> type_free fs ->
-  all_nodup_l (inline_scopes (map of_ufield fs)).
-Proof.
-  intros fs Hw Ht. unfold inline_scopes. rewrite flat_map_concat_map, map_map, <- flat_map_concat_map.
-  apply Forall_forall. intros sc Hsc. apply in_flat_map in Hsc. destruct Hsc as [u [Hu Hsc]].
-  rewrite forallb_forall in Hw. destruct (ufield_wf_parts u (Hw u Hu)) as [_ [Wi _]]. specialize (Ht u Hu).
-  destruct u as [n k r o]. unfold of_ufield in Hsc. unfold inline_wf in Wi. cbn [uf_kind] in *.
-  destruct k as [pt j|m|m|m|p f t|tn j|i|i|sfs|sfs|os]; cbn [f_inline il_kind il_fields N.eqb Pos.eqb] in Hsc; try contradiction.
-  - (* inline object *)
-    destruct Hsc as [<-|[]]. apply andb_true_iff in Wi. destruct Wi as [_ Wn]. apply nodup_bytes_NoDup in Wn.
-    unfold sp_inline_scope in Wn. rewrite map_map. exact Wn.
-  - (* inline oneof *)
-    destruct Hsc as [<-|[]]. apply andb_true_iff in Wi. destruct Wi as [_ Wn]. apply nodup_bytes_NoDup in Wn.
-    unfold sp_inline_scope in Wn. rewrite app_nil_r in Wn. rewrite map_map.
-    destruct sfs as [|s0 sr]; [constructor|]. cbn [is_nil].
-    apply NoDup_app_intro; [exact Wn|repeat constructor; intros []|].
-    intros x Hx [<-|[]]. apply in_map_iff in Hx. destruct Hx as [s1 [E Hs1]].
-    rewrite forallb_forall in Ht. specialize (Ht s1 Hs1). unfold proto_name, of_sfield in E. cbn [f_json] in E.
-    rewrite E, bytes_eqb_refl in Ht. discriminate.
 Qed.
 
 (* names that start with a lower-case letter are neither presence oneofs nor map entries *)
@@ -540,10 +581,10 @@ Qed.
 Lemma inline_names_not_lower : forall fs x, forallb ufield_wf fs = true -> In x (sp_inline_names fs) -> lower_start x = false.
 Proof.
   intros fs x Hw Hx. unfold sp_inline_names in Hx. apply in_flat_map in Hx. destruct Hx as [u [Hu Hx]].
-  rewrite forallb_forall in Hw. destruct (ufield_wf_parts u (Hw u Hu)) as [Hn _].
+  rewrite forallb_forall in Hw. destruct (ufield_wf_parts u (Hw u Hu)) as [Hn [Wi _]]. unfold inline_wf in Wi.
   destruct (camel_cap_start _ Hn) as [c [t [E Hc]]].
   assert (Hcamel : lower_start (to_camel (uf_name u)) = false) by (rewrite E; cbn; now apply cap_not_low).
-  destruct (uf_kind u) as [pt j|m|m|m|p f te|tn j|i|i|sfs|sfs|os]; try contradiction.
+  destruct (uf_kind u) as [pt j|m|m|m|p f te|tn j|i|i|sfs|sfs|os|tk tfs]; try contradiction; try discriminate.
   - destruct Hx as [<-|[]]. exact Hcamel.
   - destruct Hx as [<-|[]]. exact Hcamel.
   - destruct Hx as [<-|Hx]; [exact Hcamel|].
@@ -566,6 +607,10 @@ Proof.
       * apply in_map_iff in Hx. destruct Hx as [o [<- _]]. apply Hval.
       * destruct Hx as [<-|Hx]; [rewrite EP; cbn; now apply cap_not_low|].
         apply in_map_iff in Hx. destruct Hx as [o [<- _]]. apply Hval.
+  - (* a tree-form inline object / oneof: only the type name *)
+    destruct (tree_wf_parts tk tfs Wi) as [Hlt _].
+    destruct (tk =? 2) eqn:E2; [apply N.eqb_eq in E2; subst tk; discriminate|].
+    destruct Hx as [<-|[]]. exact Hcamel.
 Qed.
 
 Lemma lower_not_in_extras : forall fs x, forallb ufield_wf fs = true -> lower_start x = true ->
@@ -581,6 +626,182 @@ Proof.
       destruct (map_name_cap_start _ (to_snake_lower_start _ Hn)) as [c [t [E Hc]]].
       rewrite E in Hx. cbn in Hx. rewrite (cap_not_low c Hc) in Hx. discriminate.
   - rewrite (inline_names_not_lower fs x Hw Hin) in Hx. discriminate.
+Qed.
+
+(* ---- the scopes of tree-form inline schemas -------------------------------------------------------------- *)
+Lemma of_tfield_facts : forall t,
+  f_json (of_tfield t) = tf_name t
+  /\ f_optional (of_tfield t) = (tf_optional t && negb (tk_repeated (tf_kind t)))
+  /\ is_map_field (of_tfield t) = tk_map (tf_kind t).
+Proof.
+  intros [n [i|i|i|k c fs os] r o d]; unfold is_map_field;
+    cbn [of_tfield f_json f_optional f_type tf_name tf_optional tf_kind tk_repeated tk_map negb];
+    repeat split; try reflexivity; try (now rewrite andb_true_r); try (now rewrite andb_false_r);
+    try (destruct i; reflexivity); try (now rewrite negb_involutive).
+  unfold inline_type. destruct (c =? 2); reflexivity.
+Qed.
+
+Lemma tnames_eq : forall fs, inline_names (map of_tfield fs) = sp_tnames fs.
+Proof.
+  induction fs as [|[n k r o d] fs IH]; [reflexivity|]. unfold inline_names, sp_tnames in *. cbn [map flat_map].
+  rewrite IH. f_equal. destruct k as [i|i|i|k c tfs os]; cbn [of_tfield];
+    rewrite ?inline_of_inline_type; try (rewrite inline_of_none by reflexivity); try reflexivity.
+  cbn [il_kind il_options]. destruct (k =? 2); [now rewrite inline_enum_values_eq|reflexivity].
+Qed.
+
+Lemma is_nil_map : forall {A B} (f : A -> B) l, is_nil (map f l) = is_nil l.
+Proof. intros A B f [|x l]; reflexivity. Qed.
+
+(* the model's scope of one nested message, spelled out over the declaration *)
+Lemma tscope_eq : forall k fs,
+  fields_scope (k =? 1) (map of_tfield fs) ++ inline_names (map of_tfield fs)
+  = map (fun t => to_snake (tf_name t)) fs
+    ++ (if k =? 1 then (if is_nil fs then [] else [bs "type"])
+        else map (fun t => 95 :: to_snake (tf_name t)) (filter (fun t => tf_optional t && negb (tk_repeated (tf_kind t))) fs))
+    ++ map (fun t => map_name (to_snake (tf_name t))) (filter (fun t => tk_map (tf_kind t)) fs)
+    ++ sp_tnames fs.
+Proof.
+  intros k fs. unfold fields_scope, entry_names, proto_name. rewrite tnames_eq, is_nil_map.
+  rewrite (filter_map_comm of_tfield f_optional (fun t => tf_optional t && negb (tk_repeated (tf_kind t))))
+    by (intros x; apply of_tfield_facts).
+  rewrite (filter_map_comm of_tfield is_map_field (fun t => tk_map (tf_kind t))) by (intros x; apply of_tfield_facts).
+  rewrite !map_map. rewrite <- !app_assoc. f_equal; [|f_equal; [|f_equal]].
+  - apply map_ext. intros t. now destruct (of_tfield_facts t) as [-> _].
+  - destruct (k =? 1); [reflexivity|]. apply map_ext. intros t. now destruct (of_tfield_facts t) as [-> _].
+  - apply map_ext. intros t. now destruct (of_tfield_facts t) as [-> _].
+Qed.
+
+Lemma NoDup_insert : forall {A} (a b : list A) x, NoDup (a ++ b) -> ~ In x (a ++ b) -> NoDup (a ++ x :: b).
+Proof.
+  induction a as [|y a IH]; cbn [app]; intros b x Hn Hx; [now constructor|].
+  inversion Hn as [|? ? Hy Hn']; subst. constructor.
+  - intros Hin. apply in_app_or in Hin. destruct Hin as [Hin|[->|Hin]].
+    + apply Hy, in_or_app. now left.
+    + apply Hx. now left.
+    + apply Hy, in_or_app. now right.
+  - apply IH; [exact Hn'|]. intros Hin. apply Hx. now right.
+Qed.
+
+(* the values of an inline enum never start with a lower-case letter *)
+Lemma inline_enum_values_not_lower : forall n os x, name_ok n = true ->
+  In x (sp_inline_enum_values (to_camel n) os) -> lower_start x = false.
+Proof.
+  intros n os x Hn Hx.
+  set (P := to_screaming_snake (to_camel n) ++ [95]) in *.
+  assert (HP : exists c' t', P = c' :: t' /\ is_cap c' = true).
+  { unfold P. rewrite to_screaming_snake_upper.
+    pose proof (to_snake_lower_start _ (camel_name_ok _ Hn)) as Hl.
+    destruct (to_snake (to_camel n)) as [|c0 r0]; [discriminate|]. cbn [lower_start] in Hl.
+    cbn [map app]. eexists. eexists. split; [reflexivity|]. unfold to_upper. rewrite Hl. now apply low_upper_is_cap. }
+  destruct HP as [c' [t' [EP Hc']]].
+  assert (Hval : forall o, lower_start (sp_enum_value_name P o) = false).
+  { intros o. unfold sp_enum_value_name. destruct (has_prefix P o) eqn:Ep.
+    - rewrite EP in Ep. destruct o as [|y o']; [discriminate|]. cbn in Ep. apply andb_true_iff in Ep. destruct Ep as [Ey _].
+      apply N.eqb_eq in Ey. subst y. cbn. now apply cap_not_low.
+    - rewrite EP. cbn. now apply cap_not_low. }
+  unfold sp_inline_enum_values in Hx. fold P in Hx. destruct os as [|o0 r0].
+  - destruct Hx as [<-|[]]. rewrite EP. cbn. now apply cap_not_low.
+  - destruct (has_suffix (bs "UNSPECIFIED") o0).
+    + apply in_map_iff in Hx. destruct Hx as [o [<- _]]. apply Hval.
+    + destruct Hx as [<-|Hx]; [rewrite EP; cbn; now apply cap_not_low|].
+      apply in_map_iff in Hx. destruct Hx as [o [<- _]]. apply Hval.
+Qed.
+
+Lemma tfield_name_ok : forall t, tfield_wf t = true -> name_ok (tf_name t) = true.
+Proof. intros [n k r o d] H. now destruct (tfield_wf_parts n k r o d H) as [Hn _]. Qed.
+
+(* entry messages and nested type names / enum values do not start with a lower-case letter *)
+Lemma textras_not_lower : forall fs x, forallb tfield_wf fs = true ->
+  In x (map (fun t => map_name (to_snake (tf_name t))) (filter (fun t => tk_map (tf_kind t)) fs) ++ sp_tnames fs) ->
+  lower_start x = false.
+Proof.
+  intros fs x Hw Hin. rewrite forallb_forall in Hw. apply in_app_or in Hin. destruct Hin as [Hin|Hin].
+  - apply in_map_iff in Hin. destruct Hin as [t [<- Ht]]. apply filter_In in Ht. destruct Ht as [Ht _].
+    destruct (map_name_cap_start _ (to_snake_lower_start _ (tfield_name_ok t (Hw t Ht)))) as [c [r [E Hc]]].
+    rewrite E. cbn. now apply cap_not_low.
+  - unfold sp_tnames in Hin. apply in_flat_map in Hin. destruct Hin as [t [Ht Hin]].
+    pose proof (tfield_name_ok t (Hw t Ht)) as Hn. destruct t as [n k r o d]. cbn [tf_name] in Hn.
+    destruct k as [i|i|i|k c tfs os]; try contradiction.
+    destruct Hin as [<-|Hin].
+    + destruct (camel_cap_start _ Hn) as [c0 [r0 [E Hc]]]. rewrite E. cbn. now apply cap_not_low.
+    + destruct (k =? 2); [|contradiction]. now apply (inline_enum_values_not_lower n os).
+Qed.
+
+(* the scope of one nested message has no repeated symbol *)
+Lemma tscope_nodup : forall k fs, forallb tfield_wf fs = true -> nodup_bytes (sp_tscope k fs) = true ->
+  options_type_free k fs = true ->
+  NoDup (fields_scope (k =? 1) (map of_tfield fs) ++ inline_names (map of_tfield fs)).
+Proof.
+  intros k fs Hw Hn Ht. rewrite tscope_eq. apply nodup_bytes_NoDup in Hn. unfold sp_tscope in Hn.
+  unfold options_type_free in Ht. destruct (k =? 1); [|exact Hn].
+  destruct fs as [|t0 tl]; [exact Hn|]. cbn [is_nil app] in *.
+  set (N := map (fun t => to_snake (tf_name t)) (t0 :: tl)) in *.
+  set (X := map (fun t => map_name (to_snake (tf_name t))) (filter (fun t => tk_map (tf_kind t)) (t0 :: tl)) ++ sp_tnames (t0 :: tl)) in *.
+  change (NoDup (N ++ bs "type" :: X)). apply NoDup_insert; [exact Hn|].
+  intros Hin. apply in_app_or in Hin. destruct Hin as [Hin|Hin].
+  - unfold N in Hin. apply in_map_iff in Hin. destruct Hin as [t [E Hin]].
+    rewrite forallb_forall in Ht. specialize (Ht t Hin). rewrite E, bytes_eqb_refl in Ht. discriminate.
+  - pose proof (textras_not_lower (t0 :: tl) (bs "type") Hw Hin) as Hl. discriminate.
+Qed.
+
+(* ... and so have, recursively, the scopes of everything nested in it *)
+Lemma tfield_scopes_nodup : forall t, tfield_wf t = true -> tfield_type_free t = true ->
+  Forall (fun sc => NoDup sc) (tfield_scopes t).
+Proof.
+  fix IH 1. intros [n k r o d] Hw Ht. destruct (tfield_wf_parts n k r o d Hw) as [_ [_ Hk]].
+  destruct k as [i|i|i|k c fs os]; try constructor.
+  cbn [tfield_scopes]. cbn [tfield_type_free] in Ht. apply andb_true_iff in Ht. destruct Ht as [Ht1 Ht2].
+  destruct (k =? 2); [constructor|]. destruct Hk as [_ [Hf [Hn _]]]. constructor.
+  - now apply tscope_nodup.
+  - clear Hw Hn Ht1. revert fs Hf Ht2. fix IHl 1. intros [|x rest] Hf Ht2; [constructor|].
+    cbn [forallb flat_map] in *. apply andb_true_iff in Hf. destruct Hf as [Hx Hr].
+    apply andb_true_iff in Ht2. destruct Ht2 as [Tx Tr]. apply Forall_app. split; [exact (IH x Hx Tx)|exact (IHl rest Hr Tr)].
+Qed.
+
+(* no inline oneof of these fields - at any depth - has an option named type (reserved_free) *)
+Definition type_free (fs : list ufield) : Prop :=
+  forall u, In u fs -> match uf_kind u with
+                       | KInlineOneof opts => forallb (fun o => negb (bytes_eqb (to_snake (sf_name o)) (bs "type"))) opts = true
+                       | KInlineTree k tfs => tree_type_free k tfs = true
+                       | _ => True end.
+
+Lemma type_free_of : forall e fs, reserved_free e = true -> (forall u, In u fs -> In u (all_ufields e)) -> type_free fs.
+Proof.
+  intros e fs Hr Hin u Hu. destruct (reserved_free_parts e Hr) as [_ [_ [_ [_ [_ [_ R]]]]]].
+  rewrite forallb_forall in R. specialize (R u (Hin u Hu)). destruct (uf_kind u); try exact I; exact R.
+Qed.
+
+Lemma type_free_sub : forall a b, (forall u, In u a -> In u b) -> type_free b -> type_free a.
+Proof. intros a b H Hb u Hu. apply Hb. now apply H. Qed.
+
+Lemma user_inline_scopes : forall fs, forallb ufield_wf fs = true -> type_free fs ->
+  all_nodup_l (inline_scopes (map of_ufield fs)).
+Proof.
+  intros fs Hw Ht. unfold inline_scopes. rewrite flat_map_concat_map, map_map, <- flat_map_concat_map.
+  apply Forall_forall. intros sc Hsc. apply in_flat_map in Hsc. destruct Hsc as [u [Hu Hsc]].
+  rewrite forallb_forall in Hw. destruct (ufield_wf_parts u (Hw u Hu)) as [_ [Wi _]]. specialize (Ht u Hu).
+  destruct u as [n k r o]. unfold of_ufield in Hsc. unfold inline_wf in Wi. cbn [uf_kind] in *.
+  destruct k as [pt j|m|m|m|p f t|tn j|i|i|sfs|sfs|os|tk tfs]; cbn [f_inline il_kind il_fields il_tree N.eqb Pos.eqb] in Hsc; try contradiction; try discriminate.
+  - (* inline object *)
+    destruct Hsc as [<-|[]]. apply andb_true_iff in Wi. destruct Wi as [_ Wn]. apply nodup_bytes_NoDup in Wn.
+    unfold sp_inline_scope in Wn. rewrite map_map. exact Wn.
+  - (* inline oneof *)
+    destruct Hsc as [<-|[]]. apply andb_true_iff in Wi. destruct Wi as [_ Wn]. apply nodup_bytes_NoDup in Wn.
+    unfold sp_inline_scope in Wn. rewrite app_nil_r in Wn. rewrite map_map.
+    destruct sfs as [|s0 sr]; [constructor|]. cbn [is_nil].
+    apply NoDup_app_intro; [exact Wn|repeat constructor; intros []|].
+    intros x Hx [<-|[]]. apply in_map_iff in Hx. destruct Hx as [s1 [E Hs1]].
+    rewrite forallb_forall in Ht. specialize (Ht s1 Hs1). unfold proto_name, of_sfield in E. cbn [f_json] in E.
+    rewrite E, bytes_eqb_refl in Ht. discriminate.
+  - (* tree form *)
+    destruct (tree_wf_parts tk tfs Wi) as [_ [Hf [Hn _]]]. unfold tree_type_free in Ht.
+    apply andb_true_iff in Ht. destruct Ht as [Ht1 Ht2].
+    destruct tfs as [|t0 tl].
+    + destruct (tk =? 2); [contradiction|]. destruct Hsc as [<-|[]]. cbn [map app is_nil filter]. destruct (tk =? 1); constructor.
+    + unfold tree_scopes in Hsc. destruct Hsc as [<-|Hsc]; [now apply tscope_nodup|].
+      apply in_flat_map in Hsc. destruct Hsc as [x [Hx Hsc]].
+      rewrite forallb_forall in Hf, Ht2.
+      pose proof (tfield_scopes_nodup x (Hf x Hx) (Ht2 x Hx)) as A. rewrite Forall_forall in A. now apply A.
 Qed.
 
 (* user fields plus fields the expansion appends: distinct when the appended names are lower-case
@@ -1227,7 +1448,24 @@ Proof.
   apply (inner_schemas e _ Q Hr). auto.
 Qed.
 
-Theorem file_acceptance : forall es, file_quantifier es = true -> exists cs, compile_file es = Ok cs.
+Lemma convert_all_accepts_parts : forall es, Forall quantified es ->
+  exists l, Forall2 (fun e cs => (exists fl, cs = expand_with e fl) /\ convert e = Ok cs) es l
+            /\ convert_all es = Ok (concat l).
+Proof.
+  induction 1 as [|e es Q _ [l [HF Hc]]].
+  - exists []. split; [constructor|reflexivity].
+  - destruct (convert_accepts e Q) as [fl He]. exists (expand_with e fl :: l). split.
+    + constructor; [split; [now exists fl|exact He]|exact HF].
+    + cbn [convert_all concat]. now rewrite He, Hc.
+Qed.
+
+Lemma Forall2_weaken : forall {A B} (P Q : A -> B -> Prop) l1 l2,
+  (forall a b, P a b -> Q a b) -> Forall2 P l1 l2 -> Forall2 Q l1 l2.
+Proof. intros A B P Q l1 l2 H HF. induction HF; constructor; auto. Qed.
+
+(* a file of several declarations compiles to the concatenation of what each declaration converts to *)
+Theorem file_acceptance_parts : forall es, file_quantifier es = true ->
+  exists l, Forall2 (fun e cs => convert e = Ok cs) es l /\ compile_file es = Ok (concat l).
 Proof.
   intros es H. unfold file_quantifier in H.
   repeat match type of H with
@@ -1237,7 +1475,10 @@ Proof.
   { apply Forall_forall. intros e He. rewrite forallb_forall in H. specialize (H e He).
     apply andb_true_iff in H. destruct H as [H1 H2]. split; [now apply quantified_of|exact H2]. }
   assert (HQ : Forall quantified es) by (eapply Forall_impl; [|exact Hall]; intros e [Q _]; exact Q).
-  destruct (convert_all_accepts es HQ) as [l [HF Hc]]. exists (concat l).
+  destruct (convert_all_accepts_parts es HQ) as [l [HF2 Hc]]. exists l.
+  split; [eapply Forall2_weaken; [|exact HF2]; intros a b [_ Hab]; exact Hab|].
+  assert (HF : Forall2 (fun e cs => exists fl, cs = expand_with e fl) es l)
+    by (eapply Forall2_weaken; [|exact HF2]; intros a b [Hab _]; exact Hab).
   unfold compile_file.
   assert (Hst : existsb (fun e => is_nil (e_status e)) es = false).
   { destruct (existsb (fun e => is_nil (e_status e)) es) eqn:E; [|reflexivity]. apply existsb_exists in E.
@@ -1254,3 +1495,26 @@ Proof.
     - pose proof (inner_scopes_concat es l HF Hall) as A. unfold all_nodup in A. rewrite Forall_forall in A. now apply A. }
   now rewrite Hl.
 Qed.
+
+Theorem file_acceptance : forall es, file_quantifier es = true -> exists cs, compile_file es = Ok cs.
+Proof. intros es H. destruct (file_acceptance_parts es H) as [l [_ Hc]]. now exists (concat l). Qed.
+
+(* THE FULL STATEMENT FOR FILES: every declaration of an admissible file yields its own components - the
+   file compiles to their concatenation, in declaration order - and each part satisfies every clause of
+   the specification for its declaration *)
+Theorem file_full_modulo_reserved : forall es, file_quantifier es = true ->
+  exists l, compile_file es = Ok (concat l)
+            /\ Forall2 (fun e cs => compile e = Ok cs /\ C17_spec e cs) es l.
+Proof.
+  intros es H. destruct (file_acceptance_parts es H) as [l [HF Hc]]. exists l. split; [exact Hc|].
+  assert (Hall : forall e, In e es -> in_quantifier e = true /\ reserved_free e = true).
+  { intros e He. unfold file_quantifier in H. apply andb_true_iff in H. destruct H as [H _].
+    apply andb_true_iff in H. destruct H as [H _]. apply andb_true_iff in H. destruct H as [H _].
+    rewrite forallb_forall in H. specialize (H e He). now apply andb_true_iff in H. }
+  clear H Hc. induction HF as [|e cs es l Hcv _ IH]; [constructor|]. constructor.
+  - destruct (Hall e (or_introl eq_refl)) as [Hq Hr].
+    destruct (full_modulo_reserved e Hq Hr) as [cs' [Hc' Hs']].
+    destruct (compile_inv e cs' Hc') as [_ [Hcv' _]]. rewrite Hcv in Hcv'. inversion Hcv'; subst cs'. split; assumption.
+  - apply IH. intros e' He'. apply Hall. now right.
+Qed.
+
